@@ -124,7 +124,8 @@ RespFromObs(o) ==
   [class |-> o.class, loc |-> o.loc, ran |-> o.ran, seenUser |-> o.seenUser,
    seenKeys |-> ToSet(o.seenKeys),
    mails |-> MailsObs(o.mails),
-   sms |-> SmsObsSet(o.sms), shown |-> {}, leaks |-> {x.where : x \in ToSet(o.leaks)}]
+   sms |-> SmsObsSet(o.sms), shown |-> {}, leaks |-> {x.where : x \in ToSet(o.leaks)},
+   calls |-> IF "calls" \in DOMAIN o THEN [i \in 1..Len(o.calls) |-> o.calls[i].kind] ELSE <<>>]
 
 -----------------------------------------------------------------------------
 
